@@ -30,7 +30,7 @@ RULE = (
     "caught at an enclosing level that continued (or a closure fault), followed by a canary; distinct by history. operator_reuse: the VJP "
     "function and the JVP function of every call template are called three times (first argument, another, the first again): the "
     "first and the third answers are bitwise equal."
-    ' Steps added later: lazy_operator, recorded_graph (const_graph after a failed recording call), cotangent_reuse.'
+    ' Steps added later: lazy_operator, recorded_graph (const_graph after a failed recording call), cotangent_reuse, array_builders (np.r_ / np.c_ / np.array of traced entries of a drawn kind: float64, complex128, float32).'
 )
 
 _REF = {}
@@ -176,7 +176,7 @@ def body(max_steps, c):
     try:
         for step in range(n_steps):
             kind = c.choice(["ok_call", "failing_call", "failing_call", "closure_fault", "closure_reuse", "reentrant", "canary", "closure_fault_ckpt",
-                             "mutate_result", "lazy_operator", "recorded_graph", "cotangent_reuse"])
+                             "mutate_result", "lazy_operator", "recorded_graph", "cotangent_reuse", "array_builders"])
             x0 = c.choice([0.7, 1.1, 1.6])
             if kind == "canary":
                 history.append(["canary"])
@@ -266,6 +266,36 @@ def body(max_steps, c):
                             return fail("history_dependence", f"step {step}: call {i} of one make_{which} operator object, evaluated after later calls of the same "
                                         f"object, gives ({float(val)!r}, {float(tan)!r}); its own arguments give ({want_v!r}, {want_d!r})",
                                         bucket("lazy_operator"), sample=sample)
+                saw_deep_caught = True
+                continue
+            if kind == "array_builders":
+                # arrays assembled from traced entries (np.r_, np.c_, np.array of a list) with entries of a drawn kind - float64, complex128,
+                # float32: the result is a function of THIS call's entries, whatever kinds earlier calls in the process assembled
+                ek = c.choice(["float64", "complex128", "float32"])
+                bld = c.choice(["r_", "c_", "array_list", "array_nested"])
+                mode = c.choice("rf")
+                history.append(["array_builders", ek, bld, mode, x0])
+                ka, kb, kc = {"float64": (2.0, 1.0, 1.5), "complex128": (1.0 + 2.0j, 1.0j, 0.5j), "float32": (onp.float32(2.0), onp.float32(1.0), onp.float32(1.5))}[ek]
+                w = onp.array([1.0 - 1.0j, 2.0j, 1.0]) if ek == "complex128" else onp.array([1.0, -2.0, 0.5])
+
+                def fb(t, ns=anp):
+                    e = [t * ka, t * t * kb, t * 0.0 + kc]
+                    arr = {"r_": lambda: ns.r_[e[0], e[1], e[2]], "c_": lambda: ns.c_[e[0], e[1], e[2]], "array_list": lambda: ns.array(e),
+                           "array_nested": lambda: ns.array([[e[0], e[1], e[2]]])}[bld]()
+                    return ns.real(ns.sum(arr * w))
+
+                want_v = float(onp.real(ka * x0 * w[0] + kb * x0 * x0 * w[1] + kc * w[2]))
+                want_d = float(onp.real(ka * w[0] + 2.0 * kb * x0 * w[1]))
+                with warnings.catch_warnings():
+                    warnings.simplefilter("ignore")
+                    if mode == "r":
+                        got_v, got_d = autograd.value_and_grad(fb)(x0)
+                    else:
+                        got_v, got_d = autograd.make_jvp(fb)(x0)(1.0)
+                tol = 1e-5 if ek == "float32" else 1e-12
+                if abs(float(got_v) - want_v) > tol * max(1.0, abs(want_v)) or abs(float(onp.real(got_d)) - want_d) > tol * max(1.0, abs(want_d)):
+                    return fail("history_dependence", f"step {step}: np.{bld} of {ek} entries (mode {mode}) gives value {float(got_v)!r}, derivative {got_d!r}; "
+                                f"its entries give {want_v!r}, {want_d!r}", bucket("array_builders"), sample=sample)
                 saw_deep_caught = True
                 continue
             if kind == "cotangent_reuse":
